@@ -126,22 +126,23 @@ function isKnown (known, prop, key) {
 function slug (s) { return s.replace(/[^A-Za-z0-9]+/g, '_').replace(/^_+|_+$/g, '').slice(0, 60) }
 
 // child: runs [from,to) in this process
-function workerMain (engine, seed, from, to, tier) {
+async function workerMain (engine, seed, from, to, tier) {
   const plans = []
   for (let run = from; run < to; run++) plans.push(engine.plan(seed, run, tier))
-  plans.forEach((plan, i) => {
+  for (let i = 0; i < plans.length; i++) {
+    const plan = plans[i]
     const run = from + i
     process.stdout.write(JSON.stringify({ run, start: true }) + '\n')
     // one rewriter process per run, fed with exactly this run's jobs in plan order: what a run
     // sees is a function of its plan only, so a replay in a fresh process sees the same
     const table = new RewriteTable()
     table.fill(engine.jobs(plan))
-    const report = engine.execute(plan, table)
+    const report = await engine.execute(plan, table)
     const line = { run, report }
     if (report.violations.length) line.plan = plan
     if (run < 2 || run % 997 === 0) line.sample = engine.summarise(plan)
     process.stdout.write(JSON.stringify(line) + '\n')
-  })
+  }
 }
 
 function execFresh (engine, plan, timeoutMs, extraEnv) {
@@ -320,18 +321,18 @@ async function checkMain (engine, tier, seed, workers, runsOverride) {
   return 0
 }
 
-function execMain (engines, file) {
+async function execMain (engines, file) {
   const v = JSON.parse(fs.readFileSync(file, 'utf8'))
   const engine = engines[v.property]
   if (!engine) { console.error('unknown property'); return 2 }
   const table = new RewriteTable()
   table.fill(engine.jobs(v.plan))
-  const rep = engine.execute(v.plan, table)
+  const rep = await engine.execute(v.plan, table)
   process.stdout.write(JSON.stringify(rep) + '\n')
   return rep.violations.length ? 1 : 0
 }
 
-function replayMain (engines, prop, file) {
+async function replayMain (engines, prop, file) {
   const rf = JSON.parse(fs.readFileSync(file, 'utf8'))
   const engine = engines[rf.property || prop]
   if (!engine) { console.error('unknown property'); return 2 }
@@ -339,7 +340,7 @@ function replayMain (engines, prop, file) {
   const known = loadKnown()
   const table = new RewriteTable()
   table.fill(engine.jobs(rf.plan))
-  const rep = engine.execute(rf.plan, table)
+  const rep = await engine.execute(rf.plan, table)
   for (const l of rep.log || []) console.log('  ' + l)
   let rc = 0
   for (const v of rep.violations) {
